@@ -542,6 +542,28 @@ pub fn run_job(spec: &RunSpec, user_validate_event: bool) -> Result<RunResult, S
     })
 }
 
+/// Recompute every epoch's training loss from the logged per-sample losses and compare with what `learn` returned.
+fn epoch_loss_mismatch(events: &[String], train: &[f32], batch: usize) -> Option<Value> {
+    let mut per_epoch: std::collections::BTreeMap<i64, std::collections::BTreeMap<i64, f32>> = Default::default();
+    for line in events {
+        let v: Value = serde_json::from_str(line).ok()?;
+        if v["event"] == "SampleDone" {
+            let bits = v["loss_bits"].as_i64()? as u32;
+            per_epoch.entry(v["epoch"].as_i64()?).or_default().insert(v["sample"].as_i64()?, f32::from_bits(bits));
+        }
+    }
+    for (e, losses) in per_epoch.iter() {
+        let ordered: Vec<f32> = losses.values().cloned().collect();
+        let groups: Vec<&[f32]> = ordered.chunks(batch).collect();
+        let mean: f32 = groups.iter().map(|g| g.iter().sum::<f32>() / g.len() as f32).sum::<f32>() / groups.len() as f32;
+        let got = *train.get(*e as usize - 1)?;
+        if !close(got, mean, 1e-5) {
+            return Some(json!({"epoch": e, "reported": got, "mean_of_group_means": mean, "groups": groups.len()}));
+        }
+    }
+    None
+}
+
 fn net_event(run: usize, spec: &RunSpec) -> Value {
     json!({"event": "Net", "run": run, "n": spec.n, "batch": spec.batch, "epochs": spec.epochs,
            "has_val": spec.nval > 0, "tol": spec.tol, "nval": spec.nval.max(1), "flagged": flagged_of(&spec.arch),
@@ -595,6 +617,11 @@ pub fn record_training(seed: u64, tier: &str, trace: &mut Vec<Value>, rep: &mut 
             Ok(res) => {
                 if res.train.len() < spec.epochs {
                     stops += 1;
+                }
+                // C04, loss clause, on the recorded run: the reported epoch loss is the mean over the epoch's groups of the
+                // mean per-sample loss (per-sample losses as logged by the SampleDone hook, in sample order)
+                if let Some(d) = epoch_loss_mismatch(&res.events, &res.train, spec.batch) {
+                    rep.mismatch("C04", "reported_train_loss_is_not_mean_of_group_means", &format!("run{}", run), d, &json!({"run": run, "arch": spec.arch["name"], "n": spec.n, "batch": spec.batch}));
                 }
                 push_hook_events(trace, res.events, false);
                 rep.nontrivial(format!("run{}", run));
